@@ -286,6 +286,16 @@ C17_SPECS = {
     "uclchem": dict(files={"net.ucl": UCL_LINES}, formats=["uclchem"], elements=["H", "C", "O", "Cl", "E"], pseudo=["CRP", "PHOTON"],
                     grain_model="rr07x", solver=("odeint", "cpu", "rosenbrock4")),
 }
+def _leeds_grain_lines():
+    from .native_net import AR, enc_leeds
+    rs = [(["GRAIN0", "e-"], ["GRAIN-"], 20), (["C+", "GRAIN-"], ["C", "GRAIN0"], 6), (["H+", "GRAIN-"], ["H", "GRAIN0"], 6),
+          (["GRAIN0", "H+"], ["GRAIN+", "H"], 1), (["GRAIN+", "e-"], ["GRAIN0"], 1), (["C", "H"], ["CH"], 1), (["CH", "H+"], ["C+", "H2"], 1)]
+    return [enc_leeds(AR(r, p, 1.0e-9 * (k + 1), 0.0, 0.0, 10, 1000, k + 1, code)) for k, (r, p, code) in enumerate(rs)]
+
+
+# several grain species in one group: the grain density is a sum over them, whose order must not follow set iteration
+C17_SPECS["leeds-grains"] = dict(files={"net.leeds": _leeds_grain_lines()}, formats=["leeds"], elements=None, pseudo=None, grain_model="hh93",
+                                 solver=("cvode", "cpu", "sparse"), skip_preludes=("custom-elements",))
 C17_SPECS["uclchem"]["files"] = {"net.ucl": [l.replace("HCL", "HCl").replace(",CL,", ",Cl,") for l in UCL_LINES]}
 
 
@@ -297,6 +307,8 @@ def oracle_c17(tier, seed):
         ref = None
         for hs in seeds:
             for pre in (preludes if hs == seeds[0] else [[]]):
+                if any(x in base.get("skip_preludes", ()) for x in pre):
+                    continue      # (the leak of another network's element tables is a recorded finding on the kida / krome cases)
                 spec = dict(base, prelude=pre, repeat=2 if not pre else 1)
                 tmp = tempfile.mkdtemp(prefix="vf_c17_")
                 try:
@@ -323,7 +335,7 @@ def oracle_c17(tier, seed):
                 finally:
                     shutil.rmtree(tmp, ignore_errors=True)
     return {"cases": cases, "distinct": cases, "violations": viol, "samples": [{"seeds": seeds, "preludes": preludes}],
-            "bound": f"3 networks x {len(seeds)} hash seeds, plus 6 preludes (the network itself rendered once and then edited through a setter; other network with custom element lists/prefixes, KROME directives, user binding energies, a KROME file that fails half-way) and repeated rendering",
+            "bound": f"{len(C17_SPECS)} networks x {len(seeds)} hash seeds, plus 6 preludes (the network itself rendered once and then edited through a setter; other network with custom element lists/prefixes, KROME directives, user binding energies, a KROME file that fails half-way) and repeated rendering",
             "rule": "each (network, seed, prelude) rendering in a fresh interpreter is one case; sha256 of include/ src/ python/"}
 
 
